@@ -220,11 +220,16 @@ func Options(rng *rand.Rand) raft.Options {
 }
 
 func NewWorld(rng *rand.Rand, d *harness.Driver, st *Stats) (*World, error) {
+	return NewWorldID(rng, d, st, 1)
+}
+
+// NewWorldID creates the node with the given id (cluster id 7).
+func NewWorldID(rng *rand.Rand, d *harness.Driver, st *Stats, self uint64) (*World, error) {
 	base, err := ioutil.TempDir("", "nodediff")
 	if err != nil {
 		return nil, err
 	}
-	w := &World{Rng: rng, D: d, St: st, Self: 1, CID: 7, Base: base, Dir: filepath.Join(base, "node"), Opt: Options(rng)}
+	w := &World{Rng: rng, D: d, St: st, Self: self, CID: 7, Base: base, Dir: filepath.Join(base, "node"), Opt: Options(rng)}
 	if err := os.MkdirAll(w.Dir, 0700); err != nil {
 		return nil, err
 	}
@@ -250,6 +255,18 @@ func (w *World) Destroy() {
 }
 
 func (w *World) NextTask() uint64 { w.task++; return w.task }
+
+// Obs returns the observations taken during the last step.
+func (w *World) Obs() []Obs { return w.obs }
+
+// Payload draws a fresh update payload.
+func (w *World) Payload() string { return w.payload() }
+
+// AddrOf is the address convention for node ids.
+func AddrOf(id uint64) string { return addrOf(id) }
+
+// TermAt exposes termAt.
+func TermAt(d *raft.VNode, i uint64) (uint64, bool) { return termAt(d, i) }
 
 // apply performs op on the real node.
 func (w *World) apply(op Op) {
